@@ -401,8 +401,30 @@ func submitV1(b *harness.B, r *rand.Rand, c *chain, g *v1Gen, vc v1Case, mine bo
 // ---------------------------------------------------------------------------
 // batch 0: tax inversion over the grid, through all three v1 constructors
 
+// preTaxHardfork: the v1 constructors on a state below the network's tax hardfork height, where the consensus tax is
+// the historical floating-point 3.9% (not rounded to a multiple of the siafund count). One fixed witness.
+func preTaxHardfork(b *harness.B) {
+	n := newNetwork(false, 1)
+	n.HardforkTax.Height = 21000
+	cs := n.GenesisState()
+	cs.Index.Height = 5 // any height below the fork; only the tax rule depends on it
+	renter, host := newActor(b.SubRng("pre-tax")), newActor(b.SubRng("pre-tax-host"))
+	hs := rhp2.HostSettings{ContractPrice: types.Siacoins(1).Div64(5), WindowSize: 144, Address: host.addr}
+	fc := rhp2.PrepareContractFormation(renter.pk, host.pk, types.Siacoins(500), types.Siacoins(1000), 5000, hs, renter.addr)
+	valid := sumOutputs(fc.ValidProofOutputs)
+	want := new(big.Int).Add(valid, toBig(cs.FileContractTax(fc)))
+	b.Eval(1)
+	b.Count("v1_pre_tax_hardfork_cases", 1)
+	if toBig(fc.Payout).Cmp(want) != 0 {
+		b.Violate("C17/v1/rhp2.PrepareContractFormation/payout-violates-the-consensus-tax-equation/below-the-tax-hardfork-height",
+			fmt.Sprintf("at a height below HardforkTax.Height the consensus tax of the constructed contract is %v: payout %v != valid sum %v + tax (off by %v); validation rejects it with \"payout with incorrect tax\"", cs.FileContractTax(fc), fc.Payout, valid, new(big.Int).Sub(toBig(fc.Payout), want)),
+			map[string]any{"tax_hardfork_height": 21000, "height": 5, "renter_payout": "500 SC", "host_collateral": "1 KS", "contract_price": "0.2 SC"})
+	}
+}
+
 func runV1Payouts(b *harness.B) {
 	r := b.Rng
+	preTaxHardfork(b)
 	c, err := newChain(false, 1, pow2(126))
 	if err != nil {
 		b.Inconclusive("cannot build v1 chain: " + err.Error())
